@@ -219,14 +219,24 @@ def parse_datetime(I, s, fmt):
     off = f['z']
     if not in_range(I, off, -86399, 86399):
         raise ParseErr('OUT_OF_RANGE')
-    return instant_of(y, m, d, f['H'], f['M'], f['S'], off)
+    S = f['S']
+    if is_sym(S):
+        # decide "leap second" under the path condition (one branch) so that the instant stays a plain term
+        if I.branch(S == 60):
+            S = 60
+        else:
+            return instant_of(y, m, d, f['H'], f['M'], S, off, no_leap=True)
+    return instant_of(y, m, d, f['H'], f['M'], S, off)
 
 
-def instant_of(y, m, d, H, M, S, off):
+def instant_of(y, m, d, H, M, S, off, no_leap=False):
     """(seconds since the epoch, frac) of a civil date-time at a UTC offset.  A leap second hh:mm:60 is the instant strictly
     between :59 and the next :00 (chrono keeps it as :59 + 1e9 ns and does not normalise): (:59, frac=True)."""
     days = days_from_civil(y, m, d)
-    if is_sym(S):
+    if is_sym(S) and no_leap:
+        frac = False
+        sec = S
+    elif is_sym(S):
         frac = z3.simplify(S == 60)
         if z3.is_false(frac):
             frac = False
